@@ -39,3 +39,42 @@ def utf8_valid(D, items, segments=None):
         if segments is not None: segments.append((i, 1 + len(need)))
         i += 1 + len(need)
     return True
+
+def utf8_lossy_segments(D, items):
+    """String::from_utf8_lossy over byte terms: list of ('ok', start, length) | ('bad', start, length) where every 'bad'
+    segment is one maximal invalid subsequence (replaced by one U+FFFD) - Unicode's "substitution of maximal subparts",
+    which is what std implements (Utf8Chunks)."""
+    out = []
+    i = 0
+    n = len(items)
+    while i < n:
+        b = items[i]
+        if rng(D, b, 0x00, 0x7f):
+            out.append(('ok', i, 1)); i += 1; continue
+        if rng(D, b, 0xc2, 0xdf):
+            need = [(0x80, 0xbf)]
+        elif rng(D, b, 0xe0, 0xe0):
+            need = [(0xa0, 0xbf), (0x80, 0xbf)]
+        elif rng(D, b, 0xe1, 0xec) or rng(D, b, 0xee, 0xef):
+            need = [(0x80, 0xbf), (0x80, 0xbf)]
+        elif rng(D, b, 0xed, 0xed):
+            need = [(0x80, 0x9f), (0x80, 0xbf)]
+        elif rng(D, b, 0xf0, 0xf0):
+            need = [(0x90, 0xbf), (0x80, 0xbf), (0x80, 0xbf)]
+        elif rng(D, b, 0xf1, 0xf3):
+            need = [(0x80, 0xbf), (0x80, 0xbf), (0x80, 0xbf)]
+        elif rng(D, b, 0xf4, 0xf4):
+            need = [(0x80, 0x8f), (0x80, 0xbf), (0x80, 0xbf)]
+        else:
+            out.append(('bad', i, 1)); i += 1; continue
+        good = 0
+        for k, (lo, hi) in enumerate(need):
+            if i + 1 + k < n and rng(D, items[i + 1 + k], lo, hi):
+                good += 1
+            else:
+                break
+        if good == len(need):
+            out.append(('ok', i, 1 + good)); i += 1 + good
+        else:
+            out.append(('bad', i, 1 + good)); i += 1 + good
+    return out
